@@ -11,6 +11,11 @@ C08Cases ==
   \cup {[type |-> "load", top |-> top, inner |-> inner] :
            top \in {q \in SeqsUpTo({"res", "E", "W", "ok", "cmt"}, 2) : Count(q, {"res"}) <= 1},
            inner \in SeqsUpTo(InnerTok, K2)}
+            (* long lists of errors (a load that went wrong from the first line on): nine, thirteen, forty - all errors, and *)
+            (* warnings with the only error at the very end                                                                *)
+            \cup {[type |-> t, top |-> [k \in 1..n |-> "E"], inner |-> <<"ok">>] : t \in {"empty", "data", "bare"}, n \in {9, 13, 40}}
+            \cup {[type |-> t, top |-> [k \in 1..n |-> IF k = n THEN "E" ELSE "W"], inner |-> <<"ok">>] : t \in {"empty", "data", "bare"}, n \in {9, 13, 40}}
+            \cup {[type |-> "load", top |-> <<"res">>, inner |-> [k \in 1..n |-> IF k = n THEN "E" ELSE w]] : n \in {9, 13, 40}, w \in {"E", "W"}}
 
 C09Contents == ContentCases
 (* capability sets: all subsets of the given universe *)
